@@ -144,8 +144,8 @@ func (m *Monitors) holds(n *Node, f fact) (bool, string) {
 // ---------------------------------------------------------------------------
 // lifecycle hooks
 
-func (m *Monitors) OnBootstrap(node int, s *VStore) {}
-func (m *Monitors) OnStart(node, inc int, n *Node)  {}
+func (m *Monitors) OnBootstrap(node int, s NodeStore) {}
+func (m *Monitors) OnStart(node, inc int, n *Node)    {}
 func (m *Monitors) OnBootError(node, inc int, err error) {
 	m.fail("C10", "newraft-error", "NewRaft on n%d.%d returned error: %v", node, inc, err)
 }
@@ -153,11 +153,11 @@ func (m *Monitors) OnBootError(node, inc int, err error) {
 func (m *Monitors) OnBooted(node, inc int, r *raft.Raft) {
 	n := m.w.nodes[node]
 	// C10: the new instance reports what was durably recorded
-	dt := n.store.kvU["CurrentTerm"]
+	dt := n.store.U64("CurrentTerm")
 	if r.CurrentTerm() != dt {
 		m.fail("C10", "term-not-restored", "n%d.%d reports term %d, durable term %d", node, inc, r.CurrentTerm(), dt)
 	}
-	want := n.store.hi
+	want := n.store.Hi()
 	if s := n.snaps.Newest(); s != nil && s.meta.Index > want {
 		want = s.meta.Index
 	}
@@ -433,13 +433,13 @@ func (m *Monitors) OnDeleteRange(node int, min, max uint64, removed []*raft.Log)
 	if last <= snapIdx {
 		return // everything removed is covered by the newest durable snapshot
 	}
-	if n.store.hi > max {
+	if n.store.Hi() > max {
 		// entries above the removed range remain: this is a removal from the front
 		m.fail("C11", "compaction-beyond-snapshot", "n%d DeleteRange(%d,%d) removes index %d above its newest durable snapshot %d", node, min, max, last, snapIdx)
 		return
 	}
 	// suffix truncation or wholesale reset: must not remove committed entries that no snapshot covers
-	wholesale := n.store.hi == 0 && m.w.sc.Store != StorePlain
+	wholesale := n.store.Hi() == 0 && m.w.sc.Store != StorePlain && m.w.sc.Store != StoreInmem
 	for _, l := range removed {
 		if l.Index <= snapIdx {
 			continue
@@ -502,7 +502,7 @@ func (m *Monitors) OnApply(node, inc int, a Applied, batch bool) {
 	if n.r != nil {
 		term = n.r.CurrentTerm()
 	} else {
-		term = n.store.kvU["CurrentTerm"]
+		term = n.store.U64("CurrentTerm")
 	}
 	m.commitFactFSM(a, fmt.Sprintf("FSM n%d.%d", node, inc), term)
 	// nothing uncommitted reaches an FSM: the entry must be durable on the server itself
